@@ -400,7 +400,29 @@ def _history_table(prog: Program, ctx: Ctx) -> None:  # noqa: PLR0912,PLR0915
 
         return (f"resolve {'.'.join(path)}", run)
 
+    def op_move(src: tuple[str, ...], dst: tuple[str, ...]):
+        """Take a subtree out and attach the same objects somewhere else (after their paths were read by the previous walk)."""
+        def run(coll: Obj, model: dict) -> None:
+            obj = container(coll, src)
+            for pth_, o_ in ((src, obj), *(((*src, n_), c_) for n_, c_ in obj.attrs.get("members", {}).items())):
+                it.getattr(o_, "path")  # somebody looked at the paths before the move
+            sc = container(coll, src[:-1])
+            it.call(meth(sc, "del_member"), sc, src[-1])
+            dc = container(coll, dst[:-1])
+            it.call(meth(dc, "set_member"), dc, dst[-1], obj)
+            d = model
+            for p in src[:-1]:
+                d = d[p]
+            sub = d.pop(src[-1])
+            d = model
+            for p in dst[:-1]:
+                d = d[p]
+            d[dst[-1]] = sub
+
+        return (f"move {'.'.join(src)} to {'.'.join(dst)}", run)
+
     ops = [
+        op_move(("m", "K"), ("n", "K")),
         op_set("name", ("m", "x"), "object"), op_set("dotted", ("m", "x"), "object"), op_set("tuple", ("m", "K", "f"), "object"), op_set("item", ("m", "x"), "object"),
         op_set("name", ("m", "x"), "alias"), op_set("name", ("m", "x"), "dangling alias"), op_set("name", ("m", "x"), "self alias"), op_set("dotted", ("m", "K"), "object"),
         op_set("name", ("m", "z"), "object"), op_set("name", ("n", "y"), "alias"),
@@ -420,6 +442,12 @@ def _history_table(prog: Program, ctx: Ctx) -> None:  # noqa: PLR0912,PLR0915
                 problems.append(f"parent of {'.'.join(cpath)} is not its container")
             if child.attrs.get("name") != name:
                 problems.append(f"{'.'.join(cpath)} is stored under a key different from its name")
+            try:
+                own_path = it.getattr(child, "path")
+            except Raised as r:
+                own_path = f"raises {r.exc}"
+            if own_path != ".".join(cpath):
+                problems.append(f"the member at {'.'.join(cpath)} reports the path {own_path}")
             for form, keyv in (("dotted", ".".join(cpath)), ("tuple", tuple(cpath)), ("item syntax", ".".join(cpath)), ("item syntax with a tuple", tuple(cpath))):
                 try:
                     got = it.call(meth(coll, "__getitem__" if form.startswith("item") else "get_member"), coll, keyv)
